@@ -9,19 +9,24 @@ From V Require Export CaseLib RespondSpec.
 Inductive hstep :=
 | HStep (declared : list bytes) (route_produces : list bytes) (codes : list nat) (lines : list bytes) (head : bool)
         (sec : sec_cfg) (dt : data) (tag : bytes) (ran : bool) (o : obs)
-        (comparable : bool) (fresh_ran : bool) (fresh : obs).
+        (comparable : bool) (fresh_ran : bool) (fresh : obs)
+        (* the error responders assigned to the API before its Context was built / after that up to this request,
+           and the responders called while this request was answered *)
+        (rcfg : responder_cfg) (invoked : list nat).
 
 Inductive case :=
 (* one request through the real API handler of a one-operation description *)
 | CServe (d : bytes) (registered : list bytes) (declared : list bytes) (route_produces : list bytes) (codes : list nat)
          (lines : list bytes) (head : bool) (auth : auth_cfg) (dt : data) (tag : bytes)
          (ran : bool) (o : obs)
+         (rcfg : responder_cfg) (invoked : list nat)
 (* Context.Respond called directly *)
 | CDirect (d : bytes) (registered : list bytes) (produces : list bytes) (rt : option route)
           (cached : option bytes) (lines : list bytes) (head : bool)
           (marker : bytes)                          (* security.FailedBasicAuth of the request, as observed *)
           (auth : option (bytes * basic_attempt))   (* the basic authenticator that examined the request first: configured realm, attempt *)
           (dt : data) (tag : bytes) (o : obs)
+          (rcfg : responder_cfg) (invoked : list nat)
 (* several requests answered one after the other by ONE Context of a description with several operations *)
 | CHist (d : bytes) (registered : list bytes) (steps : list hstep).
 
@@ -29,14 +34,15 @@ Inductive case :=
    demand that the answer inside the history is the answer of a fresh Context *)
 Definition step_check (d : bytes) (registered : list bytes) (st : hstep) : bool * bool :=
   match st with
-  | HStep declared rp codes lines head sec dt tag ran o comparable fresh_ran fresh =>
+  | HStep declared rp codes lines head sec dt tag ran o comparable fresh_ran fresh rcfg invoked =>
     match parse_accept lines with
     | Some specs =>
       let q := mkhreq (mkroute rp true codes) specs head sec dt in
       let order_ok := list_eqb bytes_eqb rp (route_produces_of d declared) in
       let same := negb comparable || (obs_eqb o fresh && Bool.eqb ran fresh_ran) in
-      (obs_agree (serve_req d registered q) tag o && Bool.eqb ran (req_runs q) && order_ok && same,
-       req_prop d registered q tag ran o && order_ok && same)
+      let resp_ok := responder_ok rcfg invoked in
+      (obs_agree (serve_req d registered q) tag o && Bool.eqb ran (req_runs q) && order_ok && same && resp_ok,
+       req_prop d registered q tag ran o && order_ok && same && resp_ok)
     | None => (false, true)
     end
   end.
@@ -44,23 +50,25 @@ Definition step_check (d : bytes) (registered : list bytes) (st : hstep) : bool 
 
 Definition check_case (c : case) : N :=
   match c with
-  | CServe d registered declared rp codes lines head auth dt tag ran o =>
+  | CServe d registered declared rp codes lines head auth dt tag ran o rcfg invoked =>
     match parse_accept lines with
     | Some specs =>
       let rt := mkroute rp true codes in
       let runs := auth_passes auth && acceptable specs rp in
       (* the route offers the declared produces in their declared order (that order breaks ties in negotiation) *)
       let order_ok := list_eqb bytes_eqb rp (route_produces_of d declared) in
-      verdict (obs_agree (serve d registered rt specs head auth dt) tag o && Bool.eqb ran runs && order_ok)
-              (serve_prop d registered rp codes specs head auth dt tag ran o && order_ok)
+      (* every error went to the responder the API has when the request is served *)
+      let resp_ok := responder_ok rcfg invoked in
+      verdict (obs_agree (serve d registered rt specs head auth dt) tag o && Bool.eqb ran runs && order_ok && resp_ok)
+              (serve_prop d registered rp codes specs head auth dt tag ran o && order_ok && resp_ok)
     | None => verdict false true
     end
-  | CDirect d registered produces rt cached lines head marker auth dt tag o =>
+  | CDirect d registered produces rt cached lines head marker auth dt tag o rcfg invoked =>
     match parse_accept lines with
     | Some specs =>
       verdict (obs_agree (respond d registered produces rt cached specs head (model_marker auth) dt) tag o &&
-               bytes_eqb marker (model_marker auth))
-              (direct_auth_prop d registered produces rt cached specs head auth dt tag o)
+               bytes_eqb marker (model_marker auth) && responder_ok rcfg invoked)
+              (direct_auth_prop d registered produces rt cached specs head auth dt tag o && responder_ok rcfg invoked)
     | None => verdict false true
     end
   | CHist d registered steps =>
